@@ -551,6 +551,52 @@ func gen(r *Rng, tier string, emit func(string)) {
 			}
 		}
 	}
+	// ---- 1c. crafted signatures whose recovery is a*R + b*G with R = k*G, small a, and b = a*k (the two halves of the double
+	// multiplication meet), b = a*k +- 1, or small b: s = a*r, message = -b*r, key = (a*k + b)*G. Textbook ECDSA accepts the
+	// low-s variant and only that one; the negated twin must fail the shape rule, not the recovery.
+	for i := 0; i < 10*scale; i++ {
+		var k *big.Int
+		switch r.Intn(3) {
+		case 0:
+			k = big.NewInt(int64(1 + r.Intn(64)))
+		case 1:
+			k = new(big.Int).Rsh(new(big.Int).SetBytes(r.Bytes(16)), uint(4+r.Intn(8)))
+			k.SetBit(k, 0, 0)
+		default:
+			k = randScalar(r)
+		}
+		if k.Sign() == 0 {
+			k = big.NewInt(2)
+		}
+		a := big.NewInt(int64(1 + r.Intn(15)))
+		ak := new(big.Int).Mul(a, k)
+		b := new(big.Int).Set(ak)
+		switch r.Intn(4) {
+		case 0:
+			b = add(ak, int64(r.Intn(3)-1))
+		case 1:
+			b = big.NewInt(int64(r.Intn(64)))
+		}
+		b.Mod(b, eclib.N)
+		R := eclib.Mul(k, eclib.G)
+		rr := new(big.Int).Mod(R.X, eclib.N)
+		recid := int(R.Y.Bit(0))
+		if R.X.Cmp(eclib.N) >= 0 {
+			recid |= 2
+		}
+		ss := new(big.Int).Mod(new(big.Int).Mul(a, rr), eclib.N)
+		m := new(big.Int).Mod(new(big.Int).Neg(new(big.Int).Mul(b, rr)), eclib.N)
+		d := new(big.Int).Mod(new(big.Int).Add(ak, b), eclib.N)
+		if ss.Sign() == 0 || rr.Sign() == 0 || d.Sign() == 0 {
+			continue
+		}
+		key := eclib.Compress(eclib.Mul(d, eclib.G))
+		addr := cipher.AddressFromPubKey(cipher.PubKey(arr33(key)))
+		for _, g := range [][]byte{eclib.Sig65(rr, ss, recid), eclib.Sig65(rr, new(big.Int).Sub(eclib.N, ss), recid^1)} {
+			emit("pubverify " + Hex(key) + " " + Hex(g) + " " + Hex(b32(m)))
+			emit("addrverify 0 " + Hex(addr.Key[:]) + " " + Hex(g) + " " + Hex(b32(m)))
+		}
+	}
 	// ---- 2. honest signatures and every algebraic transform of them
 	for i := 0; i < 25*scale; i++ {
 		d := randScalar(r)
